@@ -277,6 +277,15 @@ package codegen
 //@   ensures res1 != nil ==> res0 == nil
 //@   ensures res1 == nil ==> res0 != nil
 
+// args.gotpl, one function per argument: C02/C01 "omitted versus explicit null": an argument that is PRESENT in the
+// raw argument map - also with an explicit null - goes through its coercion (and, where the schema puts directives
+// on the argument, through them); only an absent argument is answered with the zero value straight away. (Stated
+// as: a present argument reaches the point where the argument's path context is set up, which precedes both.)
+//@ family fieldarg [C02,C01]
+//@   ghost present = false
+//@   at! `assign ok` ghost present = rhs0
+//@   ensures !panicked && present ==> calls(WithPathContext) >= 1
+
 // input.gotpl: unmarshalInput<T>. C02 omitted-vs-null: the incoming map is copied entry by entry (it is never
 // written), and a schema default is injected ONLY for a key that is absent - an explicit null stays null.
 // Every field unmarshal error is returned.
